@@ -207,6 +207,18 @@ def search(ctx):
         seen.add(('path', tuple(gen.seg_key(s) for s in path.asSegments())))
         if len(samples) < 2: samples.append({'path': path_json(path), 'simple_ccw': simple})
         if f: fails.append({'class': 'C10-path', 'what': f[0], 'input': {'path': path_json(path), 'simple_ccw': simple, 'seed2': seed2}, 'observed': f, 'expected': 'C10 closed-path clauses'})
+    # contours far from the origin: an error in WHERE the flattened polygon closes is multiplied by the distance from the origin
+    for _ in range(ctx.n(25, 300)):
+        w, h = rng.uniform(100, 400), rng.uniform(60, 200)
+        dshape = BezierPath.fromSegments([CubicBezier(P(0, 0), P(w, 0), P(w, h), P(0, h)), Line(P(0, h), P(0, 0))])
+        v = P(rng.choice([-1, 1]) * rng.uniform(2e4, 3e5), rng.choice([-1, 1]) * rng.uniform(2e4, 3e5))
+        far = path_from_json(path_json(dshape)).translate(v)
+        ev += 1; dist['path/far-from-origin'] = dist.get('path/far-from-origin', 0) + 1
+        g = ref.green_area([pts(s) for s in far.asSegments()]); sa = far.signed_area; L = far.length
+        f = []
+        if abs(sa - g) > 10 * L: f.append(f'D-shaped contour translated to ({v.x:.0f},{v.y:.0f}): signed_area {sa!r} vs exact enclosed area {g!r} (10*length = {10 * L:.5g})')
+        elif not sa > 0: f.append(f'counter-clockwise D-shaped contour at ({v.x:.0f},{v.y:.0f}) has signed_area {sa!r}')
+        if f: fails.append({'class': 'C10-path', 'what': f[0], 'input': {'path': path_json(far), 'simple_ccw': True, 'seed2': 1}, 'observed': f, 'expected': 'C10 closed-path clauses'})
     for _ in range(ctx.n(30, 250)):
         kind = rng.choice(['rect', 'ellipse', 'circle'])
         a = rng.choice([float(rng.randint(1, 5000)), rng.uniform(1, 5000)]); b = rng.choice([float(rng.randint(1, 5000)), rng.uniform(1, 5000)])
